@@ -88,6 +88,8 @@ impl EdgeLocate for OpenIntersectGap {
         let mut iterations = 0;
 
         while drift > af_tol {
+            #[cfg(feature = "verif")]
+            crate::verif::tick();
             let end_sp = working_stations.end_sp()?;
             let max_dist = end_sp
                 .scalar_projection(&end_cap.a)
